@@ -162,3 +162,7 @@ def _close(u, v, rel=1e-6):
 def _short(spec):
     return {"comps": [{k: c[k] for k in ("name", "kind", "args", "parents", "phase") if c.get(k) not in (None, "")}
                       for c in spec["comps"]][:12], "phases": spec.get("phases")}
+
+
+def finish(ctx):
+    _rows.repo_tests_under_monitor(ctx, ACCEPT)
